@@ -1,5 +1,5 @@
 import json, os, glob
-HOOK_COMMITS = ["ead84d4", "285225c", "4e54b8d", "cdce982", "92726f7", "739cf3e", "2ea30b8", "530d50f"]
+HOOK_COMMITS = ["ead84d4", "285225c", "4e54b8d", "cdce982", "92726f7", "739cf3e", "2ea30b8", "530d50f", "a8c7d2c"]
 NOTES = ("Lean 4 proof + checked correspondence; see DESIGN.md. Properties not yet claimed are listed under "
          "not_applicable until their check exists.")
 _NB = "check not built yet (planned, see DESIGN.md section 6); not claimed until it exists"
